@@ -1,3 +1,4 @@
+import NibabelModel.Basic.PySlice
 /-! Model/C20 — executable model of PAR/REC volume assembly (nibabel/parrec.py), core Lean only.
 
 What is modelled (line numbers of /repo/nibabel/parrec.py after the `fix:` commits):
@@ -57,7 +58,7 @@ structure Cfg where
   maxGradOrient : Int     -- read only for V4.1/V4.2
 deriving DecidableEq, Repr
 
-inductive Err | parrec | value
+inductive Err | parrec | value | index
 deriving DecidableEq, Repr
 
 def Cfg.hasGrad (c : Cfg) : Bool := c.version != .v4
@@ -278,6 +279,17 @@ def volumeLabels (c : Cfg) (recs : List Rec) (kept : List Rec) : List (String ×
   ((dynamicKeys c).filter (fun kf => distinctCount (recs.map kf.2) > 1)).map
     (fun kf => (kf.1, (kept.filter (·.slice == 1)).map kf.2))
 
+/-- the guard of the direct `fileslice` read in `PARRECArrayProxy._get_unscaled` (649-663):
+    `indices[0] != 0 or np.any(np.diff(indices) != 1)` is False, i.e. the indices are 0,1,…,k-1 -/
+def isSequential (idx : List Nat) : Bool := idx == List.range idx.length
+
+/-- slab identity of the array a NON-EMPTY slicer is applied to by `_get_unscaled(slicer)`:
+    sequential indices -> `fileslice` straight on the REC file with the output shape (the first
+    `prod(shape[2:])` slabs in RECORD order); otherwise the gathered whole array `_get_unscaled(())` -/
+def partialSlabs (recs : List Rec) (kept : List (Nat × Rec)) : List Nat :=
+  if isSequential (kept.map (·.1)) then (recs.take kept.length).map (·.payload)
+  else kept.map (·.2.payload)
+
 structure Out where
   shape : List Nat                  -- data shape without the two in-plane axes
   idx : List Nat                    -- `get_sorted_slice_indices()`
@@ -285,6 +297,8 @@ structure Out where
   slopes : List Rat                 -- `get_data_scaling(method)[0]`, F order
   inters : List Rat
   labels : List (String × List Int)
+  pdata : List Nat                  -- slab identity of the array sliced reads `dataobj[slicer]` select from
+  direct : Bool                     -- sliced reads go straight to the REC file
 
 /-- `PARRECImage.load(..., permit_truncated, scaling, strict_sort)` reduced to the observables -/
 def load (c : Cfg) (permit strict : Bool) (m : Scaling) (orig : Bool) (recs : List Rec) :
@@ -300,6 +314,58 @@ def load (c : Cfg) (permit strict : Bool) (m : Scaling) (orig : Bool) (recs : Li
          data := kept.map (·.2.payload)
          slopes := kept.map (slopeOf m ·.2)
          inters := kept.map (interOf m ·.2)
-         labels := volumeLabels c recs (kept.map (·.2)) }
+         labels := volumeLabels c recs (kept.map (·.2))
+         pdata := partialSlabs recs kept
+         direct := isSequential (kept.map (·.1)) }
+
+/-! ### sliced reads through the proxy (`dataobj[slicer]`) -/
+
+inductive Item
+  | int (i : Int)
+  | slice (s : PySlice)
+  | ellipsis
+deriving DecidableEq, Repr
+
+def fullSlice : Item := .slice ⟨none, none, none⟩
+
+/-- replace the Ellipsis (at most one) by full slices so that `ndim` axes are indexed; more real items
+    than axes are left as they are (the scan below reports them) -/
+def expandEllipsis (ndim : Nat) (items : List Item) : List Item :=
+  let k := (items.filter (· != .ellipsis)).length
+  items.flatMap fun it => if it == .ellipsis then List.replicate (ndim - k) fullSlice else [it]
+
+/-- positions selected on an axis of length `n` (Python semantics of Basic/PySlice).  An integer
+    outside -n..n-1: IndexError from NumPy indexing of the gathered array, ValueError from
+    `fileslice.canonical_slicers` on the direct path. -/
+def axisSel (direct : Bool) (n : Nat) : Item → Except Err (List Nat)
+  | .int i => match pyIntIndex n i with
+      | some k => .ok [k]
+      | none => .error (if direct then .value else .index)
+  | .slice s => .ok (s.sel n)
+  | .ellipsis => .error .index
+
+/-- left-to-right scan of the items against the axes (as `canonical_slicers` / NumPy do): an item
+    beyond the last axis is an IndexError; the first offending item decides the error -/
+def scanAxes (direct : Bool) : List Nat → List Item → Except Err (List (List Nat))
+  | _, [] => .ok []
+  | [], _ :: _ => .error .index
+  | n :: dims, it :: rest => do
+      let sel ← axisSel direct n it
+      let tl ← scanAxes direct dims rest
+      pure (sel :: tl)
+
+/-- slab identities selected by `dataobj[slicer]`, F order over (slice, volume) in slicer order; `[]`
+    when nothing is selected.  `xy` = in-plane shape (constant, from the header). -/
+def readPartial (o : Out) (xy : Nat × Nat) (items : List Item) : Except Err (List Nat) := do
+  let ns := o.shape.headD 0
+  let dims := [xy.1, xy.2] ++ o.shape
+  let sels ← scanAxes o.direct dims (expandEllipsis dims.length items)
+  let all (a : Nat) (n : Nat) : List Nat := sels.getD a (List.range n)     -- missing trailing axes: everything
+  let xs := all 0 xy.1
+  let ys := all 1 xy.2
+  let ss := all 2 ns
+  let vs := if o.shape.length == 2 then all 3 (o.shape.getD 1 1) else [0]
+  if xs.isEmpty || ys.isEmpty then pure []
+  else pure (vs.flatMap fun v => ss.map fun s => o.pdata.getD (s + ns * v) 0)
 
 end Nb.C20
